@@ -955,6 +955,29 @@ def _digests_before(ctx: Ctx, cer: gw.Ceremony) -> Digests:
                     else:
                         want_ref = ref_sighash.legacy(_script_code(spec, psbt_in), tx, i, ht)
                     ctx.check(P09, "direct-equals-definition", d0 == want_ref, lambda: f"input {i} ({spec.wallet.kind}) type {ht}: direct {d0.hex()} != transcription of the defining text {want_ref.hex()}", site=spec.wallet.kind)
+                    # hash types outside the seven defined ones: the legacy and BIP143 functions hash every 32-bit
+                    # value (a signature may carry one), reading the output half off the low five bits; BIP341
+                    # declares them an error
+                    odd = ch.pick([0x04, 0x06, 0x07, 0x0A, 0x1E, 0x1F, 0x20, 0x42, 0x86, 0x9E, 0xC3, 0x102, 0x80, 0x00 if not is_tr else 0x84], "digest.oddtype")
+                    if is_tr:
+                        try:
+                            got_odd: Any = sig_hash.taproot(tx, i, cer.prevouts, odd, int(bool(lh)), b"", ext)
+                            verdict_odd = "answered " + got_odd.hex()[:16]
+                        except LIB:
+                            verdict_odd = "refused"
+                        except Exception as e:  # noqa: BLE001
+                            verdict_odd = f"non-library {type(e).__name__}"
+                        ctx.check(P09, "undefined-taproot-type-refused", verdict_odd == "refused", lambda: f"input {i}: sig_hash.taproot with hash type {odd:#x} {verdict_odd}", site="taproot")
+                    else:
+                        with ctx.must_succeed(P09, "direct-digest-computes", "undefined-type"):
+                            if spec.wallet.kind == "segwit0":
+                                o0, o1 = sig_hash.segwit_v0(code, tx, i, odd, spec.value), sig_hash.segwit_v0(code, tx, i, odd, spec.value, precomputed)
+                                want_ref = ref_sighash.bip143(code, tx, i, odd, spec.value)
+                            else:
+                                o0 = o1 = sig_hash.legacy(_script_code(spec, psbt_in), tx, i, odd)
+                                want_ref = ref_sighash.legacy(_script_code(spec, psbt_in), tx, i, odd)
+                        ctx.check(P09, "direct-equals-definition", o0 == want_ref, lambda: f"input {i} ({spec.wallet.kind}) undefined type {odd:#x}: direct {o0.hex()} != transcription {want_ref.hex()}", site="undefined-type")
+                        ctx.check(P09, "precomputed-equals-direct", o1 == o0, lambda: f"input {i} undefined type {odd:#x}: with PrecomputedTxData {o1.hex()} != direct {o0.hex()}", site="undefined-type")
                     if spec.wallet.kind == "legacy":
                         # a script code with OP_CODESEPARATORs in it: in front, at the end, and as DATA inside a push
                         # (which stays). Nobody signs this; it is the digest function against the text
